@@ -155,19 +155,26 @@ func (g *gen) sameNameCalls() {
 // ---------- pointer / value / interface parameters on values nested in a pointer-bridged struct ----------
 
 type PInner struct{ N, M int }
+type POuter struct{ In PInner }
 type PHolder struct {
 	C  PInner
 	G  [3]int
 	P  *PInner
 	S  []PInner
 	Mp map[string]PInner
+	A  [2]PInner
+	S2 []POuter
 }
 
-var pCellJS = []string{"h.C.N", "h.C.M", "h.G[0]", "h.G[1]", "h.G[2]", "h.P.N", "h.P.M", "h.S[0].N", "h.S[0].M", "h.Mp.a.N", "h.Mp.a.M"}
+var pCellJS = []string{"h.C.N", "h.C.M", "h.G[0]", "h.G[1]", "h.G[2]", "h.P.N", "h.P.M", "h.S[0].N", "h.S[0].M", "h.Mp.a.N", "h.Mp.a.M", "h.A[0].N", "h.A[0].M", "h.S2[0].In.N", "h.S2[0].In.M"}
+
+// for a cell reached through a by-value element: the element expression and the path below it
+var pElemOf = map[int][2]string{7: {"h.S[0]", "N"}, 8: {"h.S[0]", "M"}, 9: {"h.Mp.a", "N"}, 10: {"h.Mp.a", "M"}, 11: {"h.A[0]", "N"}, 12: {"h.A[0]", "M"}, 13: {"h.S2[0]", "In.N"}, 14: {"h.S2[0]", "In.M"}}
 
 func pCells(h *PHolder) []int64 {
 	return []int64{int64(h.C.N), int64(h.C.M), int64(h.G[0]), int64(h.G[1]), int64(h.G[2]), int64(h.P.N), int64(h.P.M),
-		int64(h.S[0].N), int64(h.S[0].M), int64(h.Mp["a"].N), int64(h.Mp["a"].M)}
+		int64(h.S[0].N), int64(h.S[0].M), int64(h.Mp["a"].N), int64(h.Mp["a"].M),
+		int64(h.A[0].N), int64(h.A[0].M), int64(h.S2[0].In.N), int64(h.S2[0].In.M)}
 }
 
 func pSetCell(h *PHolder, c int, v int) {
@@ -190,17 +197,26 @@ func pSetCell(h *PHolder, c int, v int) {
 		x := h.Mp["a"]
 		x.N = v
 		h.Mp["a"] = x
-	default:
+	case 10:
 		x := h.Mp["a"]
 		x.M = v
 		h.Mp["a"] = x
+	case 11:
+		h.A[0].N = v
+	case 12:
+		h.A[0].M = v
+	case 13:
+		h.S2[0].In.N = v
+	default:
+		h.S2[0].In.M = v
 	}
 }
 
 func (g *gen) ptrHist(fixed []string) {
 	r := g.env.Rng
 	rv := func() int { return r.Intn(90) + 10 }
-	h := &PHolder{C: PInner{rv(), rv()}, G: [3]int{rv(), rv(), rv()}, P: &PInner{rv(), rv()}, S: []PInner{{rv(), rv()}}, Mp: map[string]PInner{"a": {rv(), rv()}}}
+	h := &PHolder{C: PInner{rv(), rv()}, G: [3]int{rv(), rv(), rv()}, P: &PInner{rv(), rv()}, S: []PInner{{rv(), rv()}}, Mp: map[string]PInner{"a": {rv(), rv()}},
+		A: [2]PInner{{rv(), rv()}, {rv(), rv()}}, S2: []POuter{{PInner{rv(), rv()}}}}
 	init := pCells(h)
 	vm := otto.New()
 	Must(vm.Set("h", h))
@@ -236,22 +252,22 @@ func (g *gen) ptrHist(fixed []string) {
 	for j := 0; j < n; j++ {
 		var js, cq, ob, line string
 		assign := false
-		kind := r.Intn(9)
+		kind := r.Intn(11)
 		if fixed != nil {
-			kind = map[string]int{"bumpC": 100, "fill": 101, "readC": 102, "readG": 103, "goC": 104, "goG": 105}[fixed[j]]
+			kind = map[string]int{"bumpC": 100, "fill": 101, "readC": 102, "readG": 103, "goC": 104, "goG": 105, "elemS": 106, "readS": 107, "goS": 108, "elemM": 109, "readM": 110, "elemSplain": 111}[fixed[j]]
 		}
 		switch kind {
 		case 0, 1:
-			c := r.Intn(11)
+			c := r.Intn(15)
 			js, cq = pCellJS[c], fmt.Sprintf("PRead true %d", c)
 		case 2:
-			c := r.Intn(11)
+			c := r.Intn(15)
 			cq, line, ob = fmt.Sprintf("PRead false %d", c), fmt.Sprintf("Go: read %s", pCellJS[c]), obNum(pCells(h)[c])
 		case 3:
 			c, v := r.Intn(7), rv()+100
 			js, cq, assign = fmt.Sprintf("%s = %d", pCellJS[c], v), fmt.Sprintf("PWrite true %d %d", c, v), true
 		case 4:
-			c, v := r.Intn(11), rv()+200
+			c, v := r.Intn(15), rv()+200
 			pSetCell(h, c, v)
 			cq, line, ob = fmt.Sprintf("PWrite false %d %d", c, v), fmt.Sprintf("Go: %s = %d", pCellJS[c], v), "(0, 0)"
 		case 5, 6, 7, 100:
@@ -266,6 +282,35 @@ func (g *gen) ptrHist(fixed []string) {
 				t, m = 0, 0
 			}
 			js, cq = fmt.Sprintf("%s(%s, %d)", modes[m], targets[t], by), fmt.Sprintf("PBump %d %d %d", t, m, by)
+		case 9, 10, 106, 109, 111:
+			// a write through an element that is a struct by value: directly or through a variable, in try/catch or bare
+			c, v := 7+r.Intn(8), rv()+400
+			try := r.Intn(4) > 0
+			switch kind {
+			case 106:
+				c, try = 7, true
+			case 109:
+				c, try = 9, true
+			case 111:
+				c, try = 7, false
+			}
+			stmt := fmt.Sprintf("%s = %d", pCellJS[c], v)
+			if r.Intn(3) == 0 {
+				e := pElemOf[c]
+				stmt = fmt.Sprintf("var e = %s; e.%s = %d", e[0], e[1], v)
+			}
+			if try {
+				js = fmt.Sprintf("try { %s; 0 } catch (err) { 1 }", stmt)
+			} else {
+				js, assign = stmt, true
+			}
+			cq = fmt.Sprintf("PWriteElem %s %d %d", Cbool(try), c, v)
+		case 107:
+			js, cq = pCellJS[7], "PRead true 7"
+		case 108:
+			cq, line, ob = "PRead false 7", "Go: read h.S[0].N", obNum(pCells(h)[7])
+		case 110:
+			js, cq = pCellJS[9], "PRead true 9"
 		case 102:
 			js, cq = pCellJS[0], "PRead true 0"
 		case 103:
@@ -289,6 +334,9 @@ func (g *gen) ptrHist(fixed []string) {
 				line += fmt.Sprintf(" [Go panic: %v]", o.Panic)
 			}
 		}
+		if !strings.HasPrefix(cq, "PWriteElem") {
+			cq = "PX (" + cq + ")"
+		}
 		coqOps = append(coqOps, cq)
 		obs = append(obs, ob)
 		txt = append(txt, line+" -> "+ob)
@@ -297,5 +345,5 @@ func (g *gen) ptrHist(fixed []string) {
 		}
 	}
 	g.env.Add(fmt.Sprintf("CPtr %s %s %s", Czlist(init), Clist(coqOps), Clist(obs)),
-		fmt.Sprintf("ptr h := &PHolder{C PInner; G [3]int; P *PInner; S []PInner; Mp map[string]PInner} cells %v; bumpP(*PInner,int) bumpV(PInner,int) bumpI(interface{},int) add to N and set M=1, fillP(*[3]int,v)/fillV([3]int,v) store v,v+1,v+2: %s", init, strings.Join(txt, "; ")), "ptr", true)
+		fmt.Sprintf("ptr h := &PHolder{C PInner; G [3]int; P *PInner; S []PInner; Mp map[string]PInner; A [2]PInner; S2 []struct{In PInner}} cells %v; bumpP(*PInner,int) bumpV(PInner,int) bumpI(interface{},int) add to N and set M=1, fillP(*[3]int,v)/fillV([3]int,v) store v,v+1,v+2: %s", init, strings.Join(txt, "; ")), "ptr", true)
 }
